@@ -71,6 +71,9 @@ def annotate(draw, c, depth=0):
         c["_st"] = draw(ST.kruskal_state(shape, c["rank"]))
     elif k == "ttensor" and len(shape) >= 1:
         c["_st"] = draw(ST.tucker_state(dict(shape=shape, cshape=c["cshape"], core=c["core"], sparse_core=c.get("sparse_core"))))
+        if _intvalued(c["core"]) and all(_intvalued(r) for f in c["factors"] for r in f):
+            c["_dt"] = draw(st.sampled_from(INT_DT))  # core storage
+            c["_fdt"] = [draw(st.sampled_from(INT_DT)) for _ in shape]  # factor matrices
     for key in list(c):
         if key.startswith("_"):
             continue
@@ -132,14 +135,16 @@ def build_ttensor(c):
         return gen.build_ttensor(c)
     s = c["_st"]
     core = gen.arr_F(c["cshape"], c["core"])
-    fm = [np.array(f, dtype=float).reshape(n, k) for f, n, k in zip(c["factors"], c["shape"], c["cshape"])]
+    fm = [np.array(f, dtype=float).reshape(n, k).astype(np.dtype(d or "float64"))
+          for f, n, k, d in zip(c["factors"], c["shape"], c["cshape"], c.get("_fdt") or [None] * len(c["shape"]))]
+    cdt = np.dtype(c.get("_dt") or "float64")
     if c.get("sparse_core"):
         sc = gen.sparse_case_from_dense(core)
         if not sc["subs"]:
             return gen.build_ttensor(c)
-        co = ST.build_sparse(sc["subs"], sc["vals"], c["cshape"], np.dtype("float64"), s.get("core"), core)
+        co = ST.build_sparse(sc["subs"], sc["vals"], c["cshape"], cdt, s.get("core"), core)
     else:
-        co = ST.build_dense(core, s.get("core"))
+        co = ST.build_dense(core.astype(cdt), s.get("core"))
     return ttb.ttensor(co, fm, copy=s.get("how") != "core-nocopy")
 
 
